@@ -408,6 +408,20 @@ func Generate(g *pk.Gen, prop string) {
 			}
 			job(mk(rounds, cfg, &e, tag), g.Rng.Intn(3))
 		}
+		// a rejected attempt, retried on the same connection: everything again with fresh randomness
+		nre := 12
+		if g.Thorough {
+			nre = 300
+		}
+		for i := 0; i < nre; i++ {
+			b := bits[g.Rng.Intn(len(bits))]
+			e := enc{b, PemOf(Key(b), "RSA PUBLIC KEY"), g.Rng.Bytes(32)}
+			first := validEnc(e)
+			first[1][0] = LoginAck(logFail, "ASE")
+			sc := mk(validEnc(e), randCfg(g, msgEncrypt4, 30), &e, "secret-relogin")
+			sc.Retry = first
+			job(sc, g.Rng.Intn(3))
+		}
 		// control: the plain flow sends the password in its slot
 		for i := 0; i < 30; i++ {
 			job(mk(validPlain(), randCfg(g, 0, 30), nil, "control-plain"), g.Rng.Intn(3))
